@@ -314,6 +314,7 @@ func (s *Seq) opSearchDelete(op *Op) {
 		for _, l := range setList(exp) {
 			s.modelDelete(l)
 		}
+		s.syncCommitted()
 		if len(exp) > 0 {
 			s.stat("probe:search-delete-nonempty")
 		}
